@@ -411,7 +411,19 @@ theorem allVariants_slots (sp : Space) (s : Seq) (vs : List Seq) (h : sp.allVari
     ∃ slots, SlotsOf s sp.multichoices slots ∧ vs = (cartesian slots).map (applyMuts s) := by
   simp only [allVariants] at h
   split at h
-  · simp at h
+  · rename_i hspan
+    have hmc : sp.multichoices = [] := by
+      simp only [choicesSpan] at hspan
+      cases hm : sp.multichoices with
+      | nil => rfl
+      | cons a l =>
+        rw [hm] at hspan
+        cases hl : (a :: l).getLast? with
+        | none => simp at hl
+        | some b => simp [hl] at hspan
+    simp only [Except.ok.injEq] at h
+    refine ⟨[], by rw [hmc]; exact List.Forall₂.nil, ?_⟩
+    simp [cartesian, applyMuts, ← h]
   · split at h
     · simp at h
     · rename_i slots hslots
